@@ -3,3 +3,8 @@ import Woodpile.Gen.Consts
 import Woodpile.Model.Arena
 import Woodpile.Model.ReadN
 import Woodpile.Model.RoughTlv
+import Woodpile.Proofs.RoughTlv
+import Woodpile.Proofs.RoughTlvEnc
+import Woodpile.Proofs.RoughTlvRt
+import Woodpile.Props.C11
+import Woodpile.Props.C12
